@@ -121,6 +121,32 @@ func c17Handshake(r *eng.Run, retained *[]func() string) string {
 	if wantP != "" {
 		r.Probe("retained_protocol")
 	}
+	if line := []byte("Sec-WebSocket-Protocol: " + wantP + "\r\n"); wantP != "" && bytes.Count(t.Server.Written, line) == 1 {
+		// The same response from a server that picks a subprotocol nobody
+		// asked for: the dialer refuses it. What it hands back with the error
+		// is the application's to keep (and to log) like any other result.
+		const rogue = "zz-unrequested"
+		resp := bytes.Replace(t.Server.Written, line, []byte("Sec-WebSocket-Protocol: "+rogue+"\r\n"), 1)
+		rand.Seed(t.RSeed)
+		ro := runClient(r, c, pipeFor(r, c.wire(resp), SegAll))
+		if ro.Err != nil {
+			r.Probe("handshake_refused_for_an_unrequested_subprotocol")
+			legit := ro.Protocol == "" || ro.Protocol == rogue
+			for _, p := range c.Protocols {
+				legit = legit || ro.Protocol == p
+			}
+			if !legit {
+				r.Failf("result_aliases_pooled_memory", "Dialer refused an unrequested subprotocol (%v) and returned Handshake.Protocol=%q, which is neither empty, nor one of its own %q, nor what the server sent (%q)", ro.Err, ro.Protocol, c.Protocols, rogue)
+			}
+			snap := strings.Clone(ro.Protocol)
+			*retained = append(*retained, func() string {
+				if ro.Protocol != snap {
+					return fmt.Sprintf("Handshake.Protocol returned together with %v was %q and is now %q", ro.Err, snap, ro.Protocol)
+				}
+				return ""
+			})
+		}
+	}
 	return name
 }
 
@@ -530,8 +556,17 @@ func c17WriteSide(r *eng.Run) string {
 		rest := data
 		for i := 0; i < 2 && len(rest) > 1 && err == nil; i++ {
 			k := 1 + r.T.Int(sim.LSeg, minInt(len(rest)-1, 9))
+			if r.T.Bool(sim.LSeg) {
+				k = 1 + r.T.Int(sim.LSeg, len(rest)-1) // pieces of any size (the pool only keeps 128 bytes and up)
+			}
 			_, err = cw.Write(rest[:k])
 			rest = rest[k:]
+			if err == nil && r.T.Bool(sim.LHist) {
+				// The next frame on the same connection: the application
+				// re-arms its CipherWriter with the new key.
+				cw.Reset(dst, drawMask(r))
+				r.Probe("cipher_writer_reset_between_writes")
+			}
 		}
 		if err == nil {
 			_, err = cw.Write(rest)
